@@ -105,13 +105,22 @@ def request(vc, later):
             bg.fields['start_obs'] = False
             bg.fields['t_start'] = P['t0'] + g * dt
             bg.fields['rng'].pos = g
+        # heap shape left by the previous request (ownership part of the invariant): every stream still holds the buffer `v` of its
+        # last draw, and each antenna's cache is a *view* of the tail of the background stream's buffer - a later request must not
+        # write into that buffer before the cache has been consumed
+        Lp = Int('prev_bg_draw')
+        vc.assume(And(Lp >= mxd, Lp >= 1, Lp <= g))
+        for p, bg in enumerate(F['bg_streams']):
+            bg.fields['v'] = SArr((Lp,), (lambda p: (lambda idx: BG(spec, P, p, g - Lp + idx[0])))(p), 'real')
         for i, an in enumerate(F['antennas']):
             d = P['ds'][i]
-            an.fields['bg_cache'] = [SArr((d,), (lambda p, d: (lambda idx: BG(spec, P, p, g - d + idx[0])))(p, d), 'real') for p in range(npol)] + [None] * (2 - npol)
+            an.fields['bg_cache'] = [vc.interp.getitem(F['bg_streams'][p].fields['v'], slice(Lp - d, None)) for p in range(npol)] + [None] * (2 - npol)
             for p, st in enumerate(an.fields['streams']):
                 st.fields['start_obs'] = False
                 st.fields['t_start'] = P['t0'] + N * dt
                 st.fields['rng'].pos = N
+                st.fields['v'] = symbolic_array(f'prev_v{i}_{p}', (Int('prev_request'),))
+        vc.assume(Int('prev_request') >= 1)
     else:
         N = 0
         g = 0
